@@ -324,4 +324,52 @@ theorem recoverSecret_of_shares (dp : Bool) (f : List F) (t n : Nat) (ht : 0 < t
   simp only [hlen, Nat.lt_irrefl, if_false]
   rw [Share.secret_fold_good dp _ _ hg hdeg, Share.eval_zero_toPoly]
 
+/-! ### the stages of `Grouping` only make `HonestReach` steps -/
+
+/-- `getAndProcessDeals` on a batch of genuine deals, however it ends -/
+theorem runDeals_reach (c : Cfg F G) (i : Nat) : ∀ (batch : List (DkgDeal F G)) (d : Gen F G) (acc : List (DkgResp F G))
+    (d' : Gen F G) (o : Option (List (DkgResp F G))), HonestReach c i d → (∀ m ∈ batch, GenuineDeal c m) →
+    runDeals c.g d batch acc = (d', o) → HonestReach c i d' := by
+  intro batch
+  induction batch with
+  | nil =>
+    intro d acc d' o hr _ h
+    simp only [runDeals, Prod.mk.injEq] at h
+    rw [← h.1]; exact hr
+  | cons m ms ih =>
+    intro d acc d' o hr hb h
+    have hr1 := HonestReach.deal d m hr (hb m (by simp))
+    rw [runDeals] at h
+    rcases hpd : processDeal c.g d m with ⟨d1, r⟩
+    rw [hpd] at h hr1
+    simp only at h hr1
+    have hb' : ∀ x ∈ ms, GenuineDeal c x := fun x hx => hb x (by simp [hx])
+    split at h
+    · exact ih d1 acc d' o hr1 hb' h
+    · split at h
+      · split at h
+        · exact ih d1 _ d' o hr1 hb' h
+        · simp only [Prod.mk.injEq] at h; rw [← h.1]; exact hr1
+      · simp only [Prod.mk.injEq] at h; rw [← h.1]; exact hr1
+
+/-- `getAndProcessResponses` on any batch, however it ends -/
+theorem runResps_reach (c : Cfg F G) (i : Nat) : ∀ (batch : List (DkgResp F G)) (d d' : Gen F G) (ok : Bool),
+    HonestReach c i d → runResps c.g d batch = (d', ok) → HonestReach c i d' := by
+  intro batch
+  induction batch with
+  | nil =>
+    intro d d' ok hr h
+    simp only [runResps, Prod.mk.injEq] at h
+    rw [← h.1]; exact hr
+  | cons m ms ih =>
+    intro d d' ok hr h
+    have hr1 := HonestReach.resp d m hr
+    rw [runResps] at h
+    rcases hpd : processResponse c.g d m with ⟨d1, r⟩
+    rw [hpd] at h hr1
+    simp only at h hr1
+    split at h
+    · simp only [Prod.mk.injEq] at h; rw [← h.1]; exact hr1
+    · exact ih d1 d' ok hr1 h
+
 end Dos.Dkg
